@@ -72,6 +72,33 @@ def detect(sid, tier="quick", check=None):
     return rc
 
 
+def matrix(tier="quick"):
+    """every seeded change against the check of its property, in a scratch clone of /repo (so /repo stays usable meanwhile)"""
+    clone = "/tmp/verif-matrix-repo"
+    sh("rm -rf %s && git clone -q /repo %s" % (clone, clone))
+    res = {}
+    try:
+        for sid in sorted(os.listdir(os.path.join(V, "seeded"))):
+            d = os.path.join(V, "seeded", sid)
+            if not os.path.isdir(d) or not os.path.exists(d + "/patch.diff"):
+                continue
+            pid = json.load(open(d + "/meta.json"))["property"]
+            rc, o = sh("git -C %s apply %s/patch.diff" % (clone, d))
+            if rc != 0:
+                res[sid] = {"property": pid, "applies": False}
+                continue
+            t0 = time.time()
+            rc, o = sh("./check %s --tier %s" % (pid, tier), cwd=V, env={"VERIF_REPO": clone})
+            sh("git -C %s checkout -- ." % clone)
+            first = [l.strip() for l in o.splitlines() if l.strip().startswith("what:")][:1]
+            res[sid] = {"property": pid, "exit": rc, "detected": rc == 1, "wall_s": round(time.time() - t0), "first": (first[0][:260] if first else "")}
+            print(sid, res[sid]["exit"], res[sid]["wall_s"], flush=True)
+    finally:
+        sh("rm -rf " + clone)
+    json.dump(res, open(os.path.join(V, "seeded", "RESULTS-%s.json" % tier), "w"), indent=1)
+    print("detected %d of %d" % (sum(1 for r in res.values() if r.get("detected")), len(res)))
+
+
 if __name__ == "__main__":
     a = sys.argv[1:]
     if a[0] == "verify":
@@ -80,5 +107,7 @@ if __name__ == "__main__":
             install(a[1], a[2], r)
     elif a[0] == "install":
         install(a[1], a[2])
+    elif a[0] == "matrix":
+        matrix(*a[1:])
     elif a[0] == "detect":
         sys.exit(0 if detect(*a[1:]) == 1 else 3)
